@@ -48,6 +48,29 @@ class HarnessError(Exception):
     pass
 
 
+def second_opinion(smt2: str, limit_s=20):
+    """Re-decide an SMT-LIB2 query with the two other solvers on this image.  Returns dict solver->answer."""
+    import subprocess
+    import tempfile
+    out = {}
+    with tempfile.TemporaryDirectory(prefix="bbverif-smt-") as d:
+        f = os.path.join(d, "q.smt2")
+        body = smt2 if "(check-sat)" in smt2 else smt2 + "\n(check-sat)\n"
+        with open(f, "w") as fh:
+            fh.write("(set-logic ALL)\n" + body)
+        for name, cmd in (("z3-4.8.12", ["/usr/bin/z3", f"-T:{limit_s}", f]), ("cvc5", ["cvc5", f"--tlimit={limit_s * 1000}", "--nl-ext-tplanes", f])):
+            try:
+                r = subprocess.run(cmd, capture_output=True, text=True, timeout=limit_s + 10)
+                txt = (r.stdout + r.stderr).strip().splitlines()
+                ans = next((ln.strip() for ln in txt if ln.strip() in ("sat", "unsat", "unknown")), "no-answer")
+                if any("(error" in ln for ln in txt):
+                    ans = "error"
+            except Exception:  # noqa: BLE001
+                ans = "no-answer"
+            out[name] = ans
+    return out
+
+
 class Job:
     """One unit of work of a check (runs in a worker process).  Collects records."""
 
@@ -67,6 +90,7 @@ class Job:
         self.solver_s = 0.0
         self.timeout = 120 if tier == "quick" else 600
         self.solve_defaults = {}      # per-job defaults for lower.solve (e.g. elim=True)
+        self.second = {"agree": 0, "no_answer": 0, "disagree": 0}
 
     # ---- bookkeeping
     def encoded(self, module, *qualnames):
@@ -123,6 +147,8 @@ class Job:
             try:
                 kw = dict(self.solve_defaults)
                 kw.update(solve_kw)
+                if self.tier == "thorough" and expect == "unsat":
+                    kw["want_smt2"] = True
                 r = LW.solve(list(conds) + extra, timeout_s=timeout, **kw)
             except T.Unsupported as ex:
                 self.errors.append(f"{name}: unsupported: {ex}")
@@ -138,6 +164,17 @@ class Job:
                                        f"real code ({tried} tried) - abstraction or stub too weak")
                     self.record(name, "spurious", r.seconds, bound, note)
                     return "spurious"
+                if self.tier == "thorough" and r.smt2 and r.seconds > 0.0:
+                    # thorough tier: the same query (same instantiated axioms) is re-decided by two other solvers
+                    ans = second_opinion(r.smt2)
+                    if any(a == "sat" for a in ans.values()):
+                        self.second["disagree"] += 1
+                        self.errors.append(f"{name}: second solver disagrees with z3's unsat: {ans} (inconclusive)")
+                    elif any(a == "unsat" for a in ans.values()):
+                        self.second["agree"] += 1
+                    else:
+                        self.second["no_answer"] += 1
+                    note = (note + "; " if note else "") + "second opinion " + ", ".join(f"{k}: {v}" for k, v in ans.items())
                 self.record(name, "unsat", r.seconds, bound, note)
                 if expect == "sat":
                     self.errors.append(f"{name}: reachability witness came back unsat (vacuous harness)")
@@ -314,6 +351,7 @@ def finish(pid, tier, seed, results, wall, mod):
             "slowest_obligations": [{k: o[k] for k in ("job", "name", "seconds", "verdict")} for o in slowest],
             "validation_samples": vsamples,
             "known_findings_hit": sorted(seen),
+            "second_solver": {k: sum(r.get("second", {}).get(k, 0) for r in results) for k in ("agree", "no_answer", "disagree")},
             "jobs": [{"name": r["name"], "wall_s": round(r["wall"], 2), "paths": r["paths"],
                       "obligations": len(r["obligations"])} for r in results],
         },
